@@ -163,7 +163,8 @@ def header_case(ctx, rng):
 
 # ------------------------------------------------------------------ (2) type pairs
 
-def header_stream(phys: int, logical: int, version: int = 1, sizes=(8, 8, 8), body: bool = True, delimited=True) -> bytes:
+def header_stream(phys: int, logical: int, version: int = 1, sizes=(8, 8, 8), body: bool = True, delimited=True,
+                  more_frames: bool = False) -> bytes:
     o = {"stream_name": "", "physical_type": phys, "generalized_statements": False, "rdf_star": False,
          "max_name_table_size": sizes[0], "max_prefix_table_size": sizes[1], "max_datatype_table_size": sizes[2],
          "logical_type": logical, "version": version}
@@ -178,6 +179,16 @@ def header_stream(phys: int, logical: int, version: int = 1, sizes=(8, 8, 8), bo
             rows += [("graph_start", {"g": ("default",)}), ("triple", t), ("graph_end", {})]
         else:
             rows.append(("triple", t))
+    if more_frames and body and delimited:
+        # ... followed by an empty frame, a frame with one more statement and a trailing empty frame
+        t2 = {"s": ("iri", 0, 1), "p": ("iri", 0, 1), "o": ("bnode", "c")}
+        if phys == 2:
+            second = [("quad", {**t2, "g": ("default",)})]
+        elif phys == 3:
+            second = [("graph_start", {"g": ("default",)}), ("triple", t2), ("graph_end", {})]
+        else:
+            second = [("triple", t2)]
+        return wire.enc_stream([{"rows": rows}, {"rows": []}, {"rows": second}, {"rows": []}], True)
     return wire.enc_stream([{"rows": rows}], delimited)
 
 
@@ -312,7 +323,7 @@ def strict_matrix(ctx):
         for logical in LOGICALS:
             if not spec_compatible(phys, logical):
                 continue
-            data = header_stream(phys, logical)
+            data = header_stream(phys, logical, more_frames=True)
             for integ, mod in (("generic", gparse), ("rdflib", rparse)):
                 for entry in ("flat", "grouped"):
                     for strict in (True, False):
@@ -321,7 +332,9 @@ def strict_matrix(ctx):
                                 evs = [(T.event_from_generic if integ == "generic" else T.event_from_rdflib)(x)
                                        for x in mod.parse_jelly_flat(io.BytesIO(data), logical_type_strict=strict)]
                             else:
-                                evs = [e for s in pj.iter_grouped(integ, data, logical_type_strict=strict) for e in s[0]]
+                                # what is parsed = the sequence of graphs/datasets handed out, empty ones included
+                                evs = [("sink", tuple(T.norm_events(s[0])))
+                                       for s in pj.iter_grouped(integ, data, logical_type_strict=strict)]
                             got = "ok"
                         except Exception as e:  # noqa: BLE001
                             got, evs = type(e).__name__, None
@@ -338,7 +351,7 @@ def strict_matrix(ctx):
                                 ctx.violation({"clause": "non-strict-rejects", "cell": [phys, logical, integ, entry, strict],
                                                "summary": f"{integ} {entry} parser, strict off, logical {logical}: {got}"})
                             else:
-                                results.setdefault((integ, entry), {})[logical] = T.norm_events(evs)
+                                results.setdefault((integ, entry), {})[logical] = T.norm_events(evs) if entry == "flat" else evs
                         ctx.case(("strict", phys, logical, integ, entry, strict), True,
                                  sample={"part": "strict-matrix", "physical": phys, "logical": logical, "parser": f"{integ}:{entry}",
                                          "strict": strict, "outcome": got})
